@@ -100,6 +100,17 @@ class Ctx:
                 return
         self.findings.append(Finding(self.prop, rule, key, file, int(line or 0), function, message))
 
+    def attempt(self, fn, *args, **kwargs):
+        """run one rule group; an analysis error in it is recorded (the run cannot end in a pass) and the other rule
+        groups still run, so that a violation one of them finds is reported"""
+        from .repo import AnalysisError
+
+        try:
+            return fn(*args, **kwargs)
+        except AnalysisError as e:
+            self.analysis_errors.append(f"{type(e).__name__}: {e}")
+            return None
+
     def assume(self, text):
         if text not in self.assumptions:
             self.assumptions.append(text)
